@@ -12,6 +12,7 @@ package main
 // prove that progress is towards the exit.
 
 import (
+	"go/constant"
 	"go/token"
 	"go/types"
 	"sort"
@@ -403,4 +404,111 @@ func cycleProgress(path []*ssa.BasicBlock, h *ssa.BasicBlock, ps *puritySummary)
 		}
 	}
 	return false
+}
+
+// ruleScannerLoopsStopAtEOF (PF-PROGRESS): text/scanner returns EOF for ever once the input is
+// exhausted, and Next() keeps "succeeding". Every loop that advances a scanner must therefore leave
+// when the scanner reports EOF: with every Peek()/Next() of the loop yielding scanner.EOF no path
+// may go round the loop again.
+func ruleScannerLoopsStopAtEOF(r *Run, rels []string, floor int) {
+	p := r.P
+	n := 0
+	for _, fn := range p.SrcFuncs() {
+		pk := fn.Pkg
+		if pk == nil && fn.Parent() != nil {
+			pk = fn.Parent().Pkg
+		}
+		in := false
+		for _, rel := range rels {
+			if pk != nil && pk.Pkg.Path() == modPath+"/"+rel {
+				in = true
+			}
+		}
+		if !in {
+			continue
+		}
+		seen := map[*ssa.BasicBlock]bool{}
+		for _, b := range fn.Blocks {
+			for _, sc := range b.Succs {
+				if !sc.Dominates(b) || seen[sc] {
+					continue
+				}
+				seen[sc] = true
+				blocks := naturalLoop(sc)
+				assume := map[ssa.Value]constant.Value{}
+				advances := false
+				for lb := range blocks {
+					for _, ins := range lb.Instrs {
+						c, ok := ins.(*ssa.Call)
+						if !ok {
+							continue
+						}
+						if callIs(c, "text/scanner", "(*Scanner).Next") {
+							advances = true
+							assume[c] = constant.MakeInt64(-1)
+						}
+						if callIs(c, "text/scanner", "(*Scanner).Peek") {
+							assume[c] = constant.MakeInt64(-1)
+						}
+					}
+				}
+				if !advances {
+					continue
+				}
+				// a Peek hoisted in front of the loop (for ch := s.Peek(); ...; ch = s.Peek())
+				for _, c := range callsIn(fn) {
+					if call, ok := c.(*ssa.Call); ok && callIs(call, "text/scanner", "(*Scanner).Peek") && call.Block().Dominates(sc) {
+						assume[call] = constant.MakeInt64(-1)
+					}
+				}
+				n++
+				o := r.Ob("PF-PROGRESS", shortFuncName(fn)+" scanner loop@"+itoa(sc.Index), "a loop that advances a text/scanner stops at the end of the input (the scanner reports EOF for ever; a loop that does not test for it never ends)")
+				var pre *ssa.BasicBlock
+				for _, pb := range sc.Preds {
+					if !blocks[pb] {
+						pre = pb
+					}
+				}
+				w := &feWalker{Fn: fn, Assume: assume, Hook: unicodeHook, MaxPath: 20000}
+				var ends []*feEnd
+				if pre != nil {
+					ends = w.RunFrom(sc, pre)
+				} else {
+					ends = w.Run()
+				}
+				if w.Aborted {
+					o.Undecide(r.pos(termPos(sc)), "path enumeration aborted")
+					continue
+				}
+				bad := false
+				for _, e := range ends {
+					// does the path come back to the loop header after its first visit?
+					visits := 0
+					left := false
+					for _, tb := range e.State.trail {
+						if tb.Parent() != fn {
+							continue
+						}
+						if !blocks[tb] {
+							left = true
+						}
+						if tb == sc && !left {
+							visits++
+						}
+					}
+					if visits > 1 {
+						bad = true
+					}
+				}
+				if bad {
+					o.Fail(r.pos(termPos(sc)), "with the scanner at EOF the loop goes round again: the input ends but the loop does not")
+				} else {
+					o.OK("leaves at EOF").At(r.pos(termPos(sc)))
+				}
+			}
+		}
+	}
+	inv := r.Ob("PF-PROGRESS", "scanner loops inventory", "at least the confirmed number of scanner loops is analysed")
+	inv.Trivial = true
+	inv.Check(n >= floor, "-", itoa(n)+" scanner loops", "only "+itoa(n)+" scanner loops found, floor "+itoa(floor))
 }
